@@ -114,6 +114,25 @@ impl FraudProof for BadEncodingFraudProof {
                 (AxisType::Col, AxisType::Col) => header.dah.column_root(self.index).unwrap(),
             };
 
+            // proof must be for the exact position that share occupies under the `root`
+            let expected_idx = if *proof_axis == self.axis {
+                share_idx
+            } else {
+                usize::from(self.index)
+            };
+
+            if proof.start_idx() as usize != expected_idx
+                || proof.end_idx() as usize != expected_idx + 1
+            {
+                bail_validation!(
+                    "share {share_idx} proof is for range {}..{}, expected {}..{}",
+                    proof.start_idx(),
+                    proof.end_idx(),
+                    expected_idx,
+                    expected_idx + 1,
+                );
+            }
+
             proof
                 .verify_range(&root, &[&share], **namespace)
                 .map_err(Error::RangeProofError)?;
